@@ -222,6 +222,12 @@ int drv_world(void) {
     fprintf(stderr, "world: sandbox root required\n");
     return 2;
   }
+  /* relative names (an ELF interpreter given relatively, a stray relative path) resolve inside the sandbox,
+     wherever the check was started from */
+  if (chdir(g_root)) {
+    perror("chdir");
+    return 2;
+  }
   if (getuid() == 0) {
     /* drop to an unprivileged user so that EACCES is the kernel's own */
     chown(g_root, 65534, 65534);
